@@ -39,6 +39,29 @@ type Job struct {
 	DataType      gdbi.DataType
 	MarkTypes     map[string]gdbi.DataType
 	StepChecksums []string
+	//lock guards Status: the spooling goroutine updates it while clients ask for it
+	lock sync.Mutex
+}
+
+// snapshot returns a copy of the job status
+func (job *Job) snapshot() *gripql.JobStatus {
+	job.lock.Lock()
+	defer job.lock.Unlock()
+	return &gripql.JobStatus{
+		Id:        job.Status.Id,
+		Graph:     job.Status.Graph,
+		State:     job.Status.State,
+		Count:     job.Status.Count,
+		Query:     job.Status.Query,
+		Timestamp: job.Status.Timestamp,
+	}
+}
+
+// update changes the job status
+func (job *Job) update(f func(status *gripql.JobStatus)) {
+	job.lock.Lock()
+	defer job.lock.Unlock()
+	f(&job.Status)
 }
 
 func jobKey(graph, job string) string {
@@ -108,7 +131,7 @@ func (fs *FSResults) Search(graph string, Query []*gripql.GraphStatement) (chan 
 			vJob := value.(*Job)
 			if vJob.Status.Graph == graph {
 				if JobMatch(qcs, vJob.StepChecksums) {
-					out <- &vJob.Status
+					out <- vJob.snapshot()
 				}
 			}
 			return true
@@ -146,26 +169,29 @@ func (fs *FSResults) Spool(graph string, stream *Stream) (string, error) {
 	fs.jobs.Store(jobKey(graph, jobName), job)
 	tbStream := MarshalStream(stream.Pipe, 4) //TODO: make worker count configurable
 	go func() {
-		job.Status.State = gripql.JobState_RUNNING
-		log.Printf("Starting Job: %#v", job)
+		job.update(func(status *gripql.JobStatus) { status.State = gripql.JobState_RUNNING })
+		log.Printf("Starting Job: %s", jobName)
 		defer resultFile.Close()
 		for i := range tbStream {
 			resultFile.Write(i)
 			resultFile.Write([]byte("\n"))
-			job.Status.Count += 1
+			job.update(func(status *gripql.JobStatus) { status.Count += 1 })
 		}
 		statusPath := filepath.Join(spoolDir, "status")
 		statusFile, err := os.Create(statusPath)
 		if err == nil {
 			defer statusFile.Close()
+			job.lock.Lock()
 			job.Status.State = gripql.JobState_COMPLETE
 			out, err := json.Marshal(job)
+			count := job.Status.Count
+			job.lock.Unlock()
 			if err == nil {
 				statusFile.Write([]byte(fmt.Sprintf("%s\n", out)))
 			}
-			log.Printf("Job Done: %s (%d results)", jobName, job.Status.Count)
+			log.Printf("Job Done: %s (%d results)", jobName, count)
 		} else {
-			job.Status.State = gripql.JobState_ERROR
+			job.update(func(status *gripql.JobStatus) { status.State = gripql.JobState_ERROR })
 			log.Printf("Job Error: %s %s", jobName, err)
 		}
 	}()
@@ -175,7 +201,7 @@ func (fs *FSResults) Spool(graph string, stream *Stream) (string, error) {
 func (fs *FSResults) Stream(ctx context.Context, graph, id string) (*Stream, error) {
 	if v, ok := fs.jobs.Load(jobKey(graph, id)); ok {
 		vJob := v.(*Job)
-		if vJob.Status.State == gripql.JobState_COMPLETE {
+		if vJob.snapshot().State == gripql.JobState_COMPLETE {
 			resultFile := filepath.Join(fs.BaseDir, sanitize.Name(graph), sanitize.Name(id), "results")
 			results, err := os.Open(resultFile)
 			if err != nil {
@@ -213,7 +239,7 @@ func (fs *FSResults) Stream(ctx context.Context, graph, id string) (*Stream, err
 func (fs *FSResults) Delete(graph, id string) error {
 	if v, ok := fs.jobs.Load(jobKey(graph, id)); ok {
 		vJob := v.(*Job)
-		if vJob.Status.State == gripql.JobState_RUNNING || vJob.Status.State == gripql.JobState_QUEUED {
+		if state := vJob.snapshot().State; state == gripql.JobState_RUNNING || state == gripql.JobState_QUEUED {
 			return fmt.Errorf("Job cancel not yet implemented")
 		}
 		fs.jobs.Delete(jobKey(graph, id))
@@ -226,8 +252,7 @@ func (fs *FSResults) Delete(graph, id string) error {
 func (fs *FSResults) Status(graph, id string) (*gripql.JobStatus, error) {
 	if v, ok := fs.jobs.Load(jobKey(graph, id)); ok {
 		vJob := v.(*Job)
-		a := vJob.Status
-		return &a, nil
+		return vJob.snapshot(), nil
 	}
 	return nil, fmt.Errorf("Job Not Found")
 }
